@@ -239,6 +239,16 @@ def C15(ctx):
                 n = list(sizes); n[i] = ln
                 c = build([R.randbytes(x) for x in n]); c.gen = f"sweep {name} param {i}"
                 cases.append(c)
+        # every pair of sized parameters, every combination of lengths (sizes that compensate each other)
+        for i in range(len(sizes)):
+            for j in range(i + 1, len(sizes)):
+                for a in range(0, min(sizes[i], 8) + sizes[j] + 3):
+                    for b in range(0, sizes[i] + min(sizes[j], 8) + 3):
+                        if (a, b) == (sizes[i], sizes[j]) or a > 26 or b > 26:
+                            continue
+                        n = list(sizes); n[i] = a; n[j] = b
+                        c = build([R.randbytes(x) for x in n]); c.gen = f"pairs of lengths {name}"
+                        cases.append(c)
         # two wrong parameters at once
         if len(sizes) > 1:
             for _ in range(40):
@@ -270,6 +280,25 @@ def C15(ctx):
             cases.append(op_iso2_pin(p, gen="sweep pin length", proj="class"))
             cases.append(op_vis_pin(g.key(), p, None, gen="sweep pin length", proj="class"))
             cases.append(op_vis_pin(g.key(), g.form(g.digits(6)), p, gen="sweep current pin length", proj="class"))
+    # PIN text whose raw length is admissible but whose content is not all digits (blanks, newline, sign, letters)
+    fill = [" ", "\n", "\t", "\r", "+", "-", "_", "a", "F", ".", "\x00", "\u00b2", "\u0663"]
+    for ln in range(3, 14):
+        for _ in range(ctx.n(12, 60)):
+            nd = R.randrange(0, ln + 1)
+            chars = list(g.digits(nd)) + [R.choice(fill[:4] if R.random() < .6 else fill) for _ in range(ln - nd)]
+            if R.random() < .5:
+                R.shuffle(chars)
+            elif R.random() < .5:
+                chars = chars[nd:] + chars[:nd]
+            p = "".join(chars)
+            for form in (str, bytes):
+                try:
+                    pf = p if form is str else p.encode("ascii")
+                except UnicodeEncodeError:
+                    pf = p if form is str else p.encode("utf-8")
+                cases.append(op_iso2_pin(pf, gen="pin content", proj="class"))
+                cases.append(op_vis_pin(g.key(), pf, None, gen="pin content", proj="class"))
+                cases.append(op_vis_pin(g.key(), g.form(g.digits(6)), pf, gen="current pin content", proj="class"))
     # selectors
     for obj in gens.NON_MEMBERS + [None]:
         if obj is not None and not isinstance(obj, ac.PaddingType):
